@@ -90,7 +90,7 @@ def cover_write(F, R, I_, backend):
         ivs = []
         for (k, l), v in D.ip.store_log.items():
             if k == f["key"] and fv.locals[l]["ty"] == rty:
-                ivs += v
+                ivs += [(max(lo, 0), hi) for lo, hi in v if hi < 2**32]     # an unbounded (unknown) index is not evidence of coverage
         n += 1
         inst = I_("%s(%s)" % (name, w) if w is not None else name)
         gap = covers(ivs, 0, need - 1)
